@@ -212,13 +212,28 @@ func (sh *cShared) op(kind, i int) []byte {
 		}
 		return o
 	case 6:
-		st := sh.sctx.NewTranscriptBytes(sh.msgs[k])
+		// the shared context through each of its three transcript constructors
+		mk := func() *sr25519.SigningTranscript {
+			switch i / cNumKeys % 3 {
+			case 0:
+				return sh.sctx.NewTranscriptBytes(sh.msgs[k])
+			case 1:
+				h := sha512.New()
+				h.Write(sh.msgs[k])
+				return sh.sctx.NewTranscriptHash(h)
+			default:
+				x := sha3.NewShake256()
+				x.Write(sh.msgs[k])
+				return sh.sctx.NewTranscriptXOF(x)
+			}
+		}
+		st := mk()
 		sig, err := sh.skp.Sign(NewDetReader(uint64(i)), st)
 		if err != nil {
 			return []byte(err.Error())
 		}
 		b, _ := sig.MarshalBinary()
-		ok := sh.spk.Verify(sh.sctx.NewTranscriptBytes(sh.msgs[k]), sig)
+		ok := sh.spk.Verify(mk(), sig)
 		return append(b, bb(ok))
 	case 7:
 		pi := ecvrf.Prove(sh.priv[k], sh.msgs[k])
